@@ -33,6 +33,7 @@ type Violation struct {
 	Inputs  map[string]string `json:"inputs"`
 	Choices []int             `json:"choices"`
 	Known   string            `json:"known,omitempty"`
+	DecIn   []string          `json:"decimal_inputs,omitempty"` // string inputs realised from a parsed decimal value
 	Replay  string            `json:"replay,omitempty"` // reproduced | not-reproduced | skipped
 	Path    string            `json:"path,omitempty"`
 }
@@ -162,6 +163,41 @@ func (p *Path) modelToInputs(model map[string]string) map[string]string {
 	return out
 }
 
+func (p *Path) decInputNames() []string {
+	var ns []string
+	for _, in := range p.inputs {
+		if _, ok := p.decStr[in.Name]; ok {
+			ns = append(ns, in.Name)
+		}
+	}
+	return ns
+}
+
+// decVariants: other spellings of the same decimal value that the SDK parser reads identically
+// (all nine fractional digits written out; a leading zero). A counterexample whose failing
+// condition depends on the spelling, not only on the value, is replayed with each of them.
+func decVariants(canon string) []string {
+	var out []string
+	neg := strings.HasPrefix(canon, "-")
+	body := strings.TrimPrefix(canon, "-")
+	ip, fp := body, ""
+	if i := strings.Index(body, "."); i >= 0 {
+		ip, fp = body[:i], body[i+1:]
+	}
+	sign := ""
+	if neg {
+		sign = "-"
+	}
+	if len(fp) < 9 {
+		out = append(out, sign+ip+"."+fp+strings.Repeat("0", 9-len(fp)))
+	}
+	if len(fp) > 0 && len(fp) < 8 {
+		out = append(out, sign+ip+"."+fp+"0")
+	}
+	out = append(out, sign+"0"+body)
+	return out
+}
+
 func (p *Path) knownDisj() *Term {
 	var cs []*Term
 	for id, c := range p.known {
@@ -199,7 +235,16 @@ func (p *Path) obligation(label, kind, msg string, cond *Term) {
 	neg := Not(cond)
 	p.sess.where = "obligation " + label
 	kd := p.knownDisj()
-	res, model := p.sess.Check(And(neg, Not(kd)), p.inputTerms())
+	res, model := Unknown, map[string]string(nil)
+	if p.stress != nil {
+		// candidate of an unmodelled step: prefer a model under the stress condition
+		if r, m := p.sess.Check(And(neg, Not(kd), p.stress), p.inputTerms()); r == Sat {
+			res, model = r, m
+		}
+	}
+	if res != Sat {
+		res, model = p.sess.Check(And(neg, Not(kd)), p.inputTerms())
+	}
 	switch res {
 	case Unsat:
 		h.mu.Lock()
@@ -212,7 +257,7 @@ func (p *Path) obligation(label, kind, msg string, cond *Term) {
 		h.mu.Lock()
 		st.Sat++
 		if countViol(h.Viol, label, "") < h.maxViol {
-			h.Viol = append(h.Viol, Violation{Harness: h.Name, Prop: h.Prop, Tier: h.Tier, Label: label, Kind: kind, Msg: msg, Inputs: p.modelToInputs(model), Choices: append([]int(nil), p.choices...)})
+			h.Viol = append(h.Viol, Violation{Harness: h.Name, Prop: h.Prop, Tier: h.Tier, Label: label, Kind: kind, Msg: msg, Inputs: p.modelToInputs(model), DecIn: p.decInputNames(), Choices: append([]int(nil), p.choices...)})
 		}
 		h.mu.Unlock()
 	case Unknown:
@@ -228,7 +273,7 @@ func (p *Path) obligation(label, kind, msg string, cond *Term) {
 			if r2 == Sat {
 				h.mu.Lock()
 				if countViol(h.Viol, label, id) < 1 {
-					h.Viol = append(h.Viol, Violation{Harness: h.Name, Prop: h.Prop, Tier: h.Tier, Label: label, Kind: kind, Msg: msg, Inputs: p.modelToInputs(m2), Choices: append([]int(nil), p.choices...), Known: id})
+					h.Viol = append(h.Viol, Violation{Harness: h.Name, Prop: h.Prop, Tier: h.Tier, Label: label, Kind: kind, Msg: msg, Inputs: p.modelToInputs(m2), DecIn: p.decInputNames(), Choices: append([]int(nil), p.choices...), Known: id})
 				}
 				h.mu.Unlock()
 			} else if r2 == Unknown {
@@ -423,6 +468,11 @@ func (e *Engine) runPath(fn *ssa.Function, trail []decision, hr *HarnessRun, ses
 				case codecConfusion:
 					end = "codec-confusion"
 					p.obligation("INV.stored-value-read-with-the-codec-that-wrote-it:"+x.Site, "codec-confusion", x.Msg, tFalse)
+				case unmodelled:
+					end = "unmodelled"
+					p.stress = x.Stress
+					p.obligation(x.Label+":"+x.Site, "unmodelled", x.Msg, tFalse)
+					p.stress = nil
 				case engineErr:
 					end = "engine-error"
 					hr.mu.Lock()
